@@ -2,7 +2,13 @@
 RandomUDSServer into a real sqlite file (several runs / ECUs / property sets per file), then replayed through the real
 DBUDSServer (UDSServerTransport.handle_request).  The rows read back with sqlite3 and the request sequence go through
 the Lean model (Model/Replay.lean): its predicted replies must equal the real replay, and - whenever the model says the
-property's presupposition `Agree` holds - the real replay must equal the recorded replies."""
+property's presupposition `Agree` holds - the real replay must equal the recorded replies.
+
+Second part (`_scenarios`, harness/lib/c12scen.py): databases with 2-3 recordings of one ECU, replies the client refused,
+cancelled calls, an OEM-like ECU subclass, pauses, short scans sent several times and a synthetic table of state objects, replayed
+through the real server with its state and cursor read after every request and through the server-level model
+(Model/ReplayServe.lean, `serve`); a replay that differs from its recording is shrunk (re-recorded with a scripted ECU) before it
+is reported."""
 import asyncio
 import json
 import sqlite3
@@ -14,14 +20,23 @@ from common import hx, setup_repo_import
 from vloop import patch_aiosqlite, vrun
 
 ID = "C12"
-GENS = []
+GENS = ["c12_server"]
 PROOF = "Gallia.Proofs.C12"
 DRIVER = "c12"
 ASSUMPTIONS = [
-    "sqlite (json_extract, ORDER BY id LIMIT 1) is represented by `minRow` over the rows read back with sqlite3",
-    "re-serialising a parsed recorded response returns the recorded bytes (property C02); requests are looked up by the bytes of the dynamically parsed request (C01)",
-    "the reply classes that drive state tracking are recognised by `classify`; validated against UDSResponse.parse_dynamic on every recorded reply",
-    "rows of the selected ECU recorded in *earlier* runs with the same name/properties are outside the theorem (they legitimately shadow later ones)",
+    "sqlite is represented by its contract: `json_extract` = `jget` (SQL NULL for an absent key or JSON null; integers, text, anything else by its minified JSON text; JSON booleans as 0 / 1), "
+    "`ORDER BY r.id LIMIT 1` = `minRow` / `minDbRow`, `INTEGER PRIMARY KEY AUTOINCREMENT` under the single writer task = consecutive ids in insertion order (`numberRows`); "
+    "float-valued state entries / properties and keys that are not plain identifiers are outside the model",
+    "the two codec facts the replay relies on are explicit hypotheses of `serve_is_replay` (`ReqLossless`: the parsed request carries the received bytes - C01; `RespLossless`: an accepted reply "
+    "re-serialises to the received bytes - C02) and are discharged in `codec_hypotheses_hold` from C01's / C02's own lemmas; that C01's / C02's decoders are the real `parse_dynamic` is C01's / C02's tie "
+    "(here every recorded reply is additionally compared with the real parser: class, typed or raw, re-serialised bytes)",
+    "the recording side is C11's recorder model (`Model/DbLog.lean`, imported read-only): `record_is_c11_rows` / `record_is_c11_calls` say its rows are `recordDb`; that the model is the real "
+    "`ECU._request` + `DBHandler` is C11's tie (here: the rows read back are the completed calls in completion order, the logged state is the model's client state)",
+    "the default rules of `UDSServer` are parameters of the server-level model (C13 models them); with `DBUDSServer.Behavior` - regenerated from the live class on every run - they are never consulted",
+    "several recordings the selector selects occupy id blocks that do not overlap (`RunsSorted`: one recording at a time per database file); `replay_with_earlier_runs` is for recordings of the same request sequence "
+    "that end in the default state - for other request sequences the exact statement is the step-level `replay_cursor_spec` plus `replay_earliest_recording`",
+    "`serve_is_replay` and the theorems transferred by it are for a server in a plain `ECUState` (what every `DBUDSServer` has) and requests without a pause beyond the inactivity limit; further server-side state keys "
+    "and pauses are in the model (`stateMatch`, `serveStep`), tied by the scenario databases and covered by `state_match_keywise` / `idle_reset_keeps_cursor` only; the clock is `time()` patched in the harness",
 ]
 
 
@@ -78,8 +93,9 @@ class TableECU:
 
     SESSIONS = (1, 2, 3, 0x40)
 
-    def __init__(self, boot):
+    def __init__(self, boot, chatty=False):
         self.boot = boot
+        self.chatty = chatty   # answers although the request asks to suppress the positive response (real ECUs do)
         self.session, self.sec, self.seed, self.silent, self.ctr = 1, None, None, 0, 0
 
     def __call__(self, p):
@@ -92,7 +108,7 @@ class TableECU:
             if sub not in self.SESSIONS:
                 return bytes([0x7F, 0x10, 0x12])
             self.session, self.sec, self.seed = sub, None, None
-            return None if p[1] & 0x80 else bytes([0x50, sub, 0x00, 0x32, 0x01, 0xF4])
+            return None if p[1] & 0x80 and not self.chatty else bytes([0x50, sub, 0x00, 0x32, 0x01, 0xF4])
         if sid == 0x11 and len(p) == 2:
             self.session, self.sec, self.seed = 1, None, None
             self.silent = self.boot
@@ -128,7 +144,7 @@ class TableECU:
         if sid == 0x31 and len(p) >= 4:
             return bytes([0x71, p[1] & 0x7F, p[2], p[3], self.session])
         if sid == 0x3E and len(p) == 2:
-            return None if p[1] & 0x80 else bytes([0x7E, 0x00])
+            return None if p[1] & 0x80 and not self.chatty else bytes([0x7E, 0x00])
         return bytes([0x7F, sid, 0x11])
 
 
@@ -338,6 +354,302 @@ def _kind_of_real(pdu):
     return "other"
 
 
+class ScriptECU:
+    """answers the i-th request with the i-th recorded reply (None: silence) - the recorded history as an ECU"""
+
+    def __init__(self, hist):
+        self.replies = [r for _, r in hist]
+        self.i = 0
+
+    def __call__(self, p):
+        r = self.replies[self.i] if self.i < len(self.replies) else None
+        self.i += 1
+        return r
+
+
+def _rerecord_and_replay(ctx, hist, n_pass=1, oem=False):
+    """record `hist` ([(request, reply|None)]) with the real recorder against a scripted ECU into a fresh database, replay the
+    requests (`n_pass` times in a row) through the real DBUDSServer; returns (recorded tokens, replayed tokens, the model says the
+    presupposition holds - and, for several passes, that the recording ends in the default state)"""
+    from lib import c12scen as sc
+
+    with tempfile.TemporaryDirectory(prefix="verif-c12-") as td:
+        dbp = Path(td) / "case.sqlite"
+        rec, _ = vrun(sc.record_run(dbp, "fake://case", ScriptECU(hist), [("pdu", p) for p, _ in hist], oem=oem))
+        sc.name_runs(dbp, [(rec["run"], "fake://case", "ECU0", {})])
+        real, _ = vrun(sc.replay_trace(dbp, "ECU0", None, [(0, p) for p, _ in hist] * n_pass))
+    la = ctx.lean(["agree " + ";".join(f"{hx(p) if p else '-'}:{hx(r) if r is not None else 'N'}" for p, r in hist)])[0] if hist else "1 final=1/n "
+    recorded = ["N" if r is None else hx(r) for _, r, _ in rec["calls"]] * n_pass
+    ok = la.split(" ")[0] == "1" and (n_pass == 1 or " final=1/n " in la)
+    return recorded, [t.split("~")[0] for t in real], ok
+
+
+def _first_diff(a, b):
+    return next((k for k in range(min(len(a), len(b))) if a[k] != b[k]), None)
+
+
+def _what(tok):
+    return "exception" if tok == "EXC" else ("silence" if tok == "N" else "other-bytes")
+
+
+def _shrink_history(ctx, hist, n_pass=1, oem=False):
+    """smallest history (prefix, then single exchanges dropped front to back) that the real recorder + the real DBUDSServer still replay
+    differently from what was recorded although client and server agree on the state along it: (history, what, recorded, replayed);
+    None when the failure does not reproduce from the history alone"""
+    def fails(h):
+        recorded, real, agree = _rerecord_and_replay(ctx, h, n_pass, oem)
+        i = _first_diff(recorded, real)
+        return (i, _what(real[i]), recorded, real) if agree and i is not None else None
+
+    f = fails(hist)
+    if f is None:
+        return None
+    if n_pass == 1:
+        hist = hist[: f[0] + 1]
+        f = fails(hist) or f
+    what = f[1]
+    k = 0
+    budget = 60
+    while k < len(hist) and len(hist) > 1 and budget > 0:
+        budget -= 1
+        cand = hist[:k] + hist[k + 1:]
+        g = fails(cand)
+        if g is not None and g[1] == what and (n_pass > 1 or g[0] == len(cand) - 1):
+            hist, f = cand, g
+        else:
+            k += 1
+    return hist, what, f[2][: f[0] + 1], f[3][: f[0] + 1]
+
+
+def _report_spec(ctx, hist, where, scenario, runs_in_db, real_tokens, recorded_tokens, unparsable, n_pass=1):
+    """the replay differs from the recording although the states agree: shrink, then report with a key that names the defect"""
+    i = _first_diff(recorded_tokens, real_tokens)
+    what = _what(real_tokens[i])
+    oem = scenario == "oem-state"
+    shrunk = _shrink_history(ctx, hist, n_pass, oem)
+    if shrunk is not None:
+        small, what, recorded_tokens, real_tokens = shrunk
+        i = len(real_tokens) - 1
+        case = {"scenario": scenario, "shrunk": True, "history": [[hx(p), None if r is None else hx(r)] for p, r in small], "passes": n_pass, "index": i}
+        if oem:
+            case["recorder"] = "ECU subclass whose state object has further keys (harness/lib/c12scen.py: oem_classes)"
+        rec_i = small[i % len(small)][1]
+    else:
+        case = {"scenario": scenario, "shrunk": False, "runs_in_db": runs_in_db, "where": where,
+                "history": [[hx(p), None if r is None else hx(r)] for p, r in hist], "passes": n_pass, "index": i}
+        rec_i = hist[i % len(hist)][1]
+    bad = rec_i is not None and hx(rec_i) in unparsable
+    key = f"replay:unparsable-recorded-reply:{what}" if bad else f"replay:differs-from-recording:{what}"
+    got = {"EXC": "an exception out of handle_request", "N": "silence"}.get(real_tokens[i], real_tokens[i])
+    ctx.disagree(key, f"replayed reply {i}{' (pass ' + str(i // len(case['history']) + 1) + ')' if n_pass > 1 else ''} is {got} but {'silence' if rec_i is None else hx(rec_i)} was recorded"
+                 + (" (a reply the client refused as malformed; the recorder kept its bytes)" if bad else "") + " - client and server agree on the state along the history",
+                 case, impl=real_tokens[: i + 1], model=recorded_tokens[: i + 1], spec_violated=True, site="DBUDSServer.respond_after_default")
+
+
+def _scenarios(ctx, td):
+    """databases with several recordings of one ECU, refused replies, cancelled calls, OEM state keys, pauses, a table of state objects
+    (harness/lib/c12scen.py) - replayed through the real server with state and cursor read after every request, and through `serve`"""
+    from lib import c12scen as sc
+
+    rng = ctx.rng
+    n_sc = ctx.pick(105, 560)
+    kinds = ["identical-runs", "same-requests", "other-requests", "refused-replies", "cancelled-calls", "oem-state", "pauses", "restarted-scan"]
+    jobs = []   # one per replay: dict(scenario, line, real, spec=(hist, recorded tokens)|None, runs_in_db, where)
+    replies_seen = set()
+
+    def table_plan(n, boot, good_keys=True):
+        plan = _gen_table_history(rng, TableECU(boot), n)
+        if chatty[0]:  # ask to suppress the positive response now and then: this ECU answers anyway
+            plan = [("pdu", bytes([it[1][0], it[1][1] | 0x80])) if it[0] == "pdu" and len(it[1]) == 2 and it[1][0] in (0x10, 0x3E) and rng.random() < 0.4 else it
+                    for it in plan]
+        return plan if good_keys else [(("key", it[1], False) if it[0] == "key" else it) for it in plan]
+
+    def table_ecu(boot, ctr0=0):
+        e = TableECU(boot, chatty=chatty[0])
+        e.ctr = ctr0
+        return e
+
+    chatty = [False]
+
+    # the synthetic table of state objects, every server-side key set
+    dbp = Path(td) / "state-table.sqlite"
+    run_id, _ = vrun(sc.state_table_db(dbp))
+    sc.name_runs(dbp, [(run_id, "fake://table", "TAB", {})])
+    runs_txt, rows_txt, _ = sc.db_for_model(dbp)
+    for scenario, xs, reqs in sc.state_table_cases():
+        real, _ = vrun(sc.replay_trace(dbp, "TAB", None, reqs, xs))
+        jobs.append({"scenario": scenario, "line": sc.serve_line("TAB", None, xs, runs_txt, rows_txt, reqs), "real": real, "spec": None,
+                     "runs_in_db": 1, "where": f"server state keys {sorted((xs or {}).keys())}"})
+        ctx.kind("scenario:state-table")
+    ctx.exhaustive_parts.append(f"{len(sc.STATE_OBJECTS)} logged state objects (missing / further keys, other key order, text / bool / null / negative / list / object "
+                                "values) x 6 server-side key sets x 3 server states, matched through the real WHERE clause")
+
+    for si in range(n_sc):
+        scenario = kinds[si % len(kinds)]
+        dbp = Path(td) / f"sc{si}.sqlite"
+        boot = rng.choice([0, 1, 2])
+        n = rng.randint(6, ctx.pick(18, 30))
+        chatty[0] = rng.random() < 0.3
+        if chatty[0]:
+            ctx.kind("scenario-ecu:answers-suppressed-requests")
+        named, recs = [], []
+
+        def rec(url, name, ecufn, steps, oem=False, vin="VIN0"):
+            r, _ = vrun(sc.record_run(dbp, url, ecufn, steps, oem=oem))
+            named.append((r["run"], url, name, {"vin": vin, "hw": 7}))
+            recs.append(r)
+            return r
+
+        def bystander():
+            if rng.random() < 0.5:  # a run of another ECU in between: ids of one ECU's recordings are not consecutive
+                rec(f"fake://other{len(recs)}", "OTHER", table_ecu(0, 7), table_plan(rng.randint(3, 8), 0), vin="VINX")
+
+        replays = []   # (run record for the spec or None, [(gap, pdu)], xs, where)
+        if scenario in ("identical-runs", "same-requests"):
+            k = rng.choice([2, 2, 3])
+            plan = table_plan(n, boot, good_keys=scenario == "identical-runs")
+            for j in range(k):
+                bystander()
+                rec("fake://ecu0", "ECU0", table_ecu(boot, 0 if scenario == "identical-runs" else 16 * j), plan)
+            mine = [r for r, nm in zip(recs, named) if nm[2] == "ECU0"]
+            reqs = [(0, p) for p, _, _ in mine[0]["calls"]]
+            replays.append((mine[0], reqs, None, "first pass"))
+            passes = rng.choice([2, k, k + 1])
+            replays.append(((mine[0], passes) if scenario == "identical-runs" else None, reqs * passes, None, f"{passes} passes over {k} recordings"))
+        elif scenario == "other-requests":
+            k = rng.choice([2, 3])
+            for j in range(k):
+                bystander()
+                rec("fake://ecu0", "ECU0", table_ecu(boot, 16 * j), table_plan(rng.randint(5, n), boot))
+            mine = [r for r, nm in zip(recs, named) if nm[2] == "ECU0"]
+            replays.append((mine[0], [(0, p) for p, _, _ in mine[0]["calls"]], None, "requests of the earliest recording"))
+            j = rng.randrange(1, k)
+            replays.append((None, [(0, p) for p, _, _ in mine[j]["calls"]], None, f"requests of recording {j + 1} of {k}"))
+        elif scenario == "refused-replies":
+            bystander()
+            ecu = sc.MutatingECU(table_ecu(boot), rng, rng.choice([0.2, 0.4, 0.7]))
+            r = rec("fake://ecu0", "ECU0", ecu, table_plan(n, boot))
+            replays.append((r, [(0, p) for p, _, _ in r["calls"]], None, f"{ecu.mutated} refused replies"))
+            replays.append(((r, 2), [(0, p) for p, _, _ in r["calls"]] * 2, None, f"{ecu.mutated} refused replies, two passes"))
+        elif scenario == "cancelled-calls":
+            steps = []
+            for it in table_plan(n, boot):
+                x = rng.random()
+                if it[0] == "pdu" and x < 0.15:
+                    steps.append(("cancel-inflight", it[1], rng.random() < 0.5))
+                elif it[0] == "pdu" and x < 0.35:
+                    other = rng.choice([it[1], it[1], b"\x3e\x00", b"\x22\xf1\x86"])
+                    steps.append(("cancel-waiting", it[1], other))
+                else:
+                    steps.append(it)
+            bystander()
+            r = rec("fake://ecu0", "ECU0", table_ecu(boot), steps)
+            replays.append((r, [(0, p) for p, _, _ in r["calls"]], None, "every call, also the ones never transmitted"))
+            replays.append((None, [(0, p) for p, _, sent in r["calls"] if sent], None, "the transmitted requests only"))
+        elif scenario == "oem-state":
+            plan = table_plan(n, boot)
+            for _ in range(rng.randint(1, 4)):
+                d = rng.randrange(0x100)
+                plan.insert(rng.randrange(len(plan) + 1), ("pdu", bytes([0x31, 1, 0x02, d])))
+                plan.insert(rng.randrange(len(plan) + 1), ("pdu", bytes([0x2E, 0x01, d, 0x55])))
+            bystander()
+            r = rec("fake://ecu0", "ECU0", table_ecu(boot), plan, oem=True)
+            reqs = [(0, p) for p, _, _ in r["calls"]]
+            replays.append((r, reqs, None, "plain server"))
+            xs = rng.choice([{"variant": None}, {"variant": "R02"}, {"boots": 0}, {"boots": 1, "variant": None}, {"written": None}])
+            replays.append((None, reqs, xs, f"server state with further keys {xs}"))
+        elif scenario == "restarted-scan":  # a short scan that ends where it began, sent again and again: the wrap-around query
+            bystander()
+            pool = [b"\x3e\x00", b"\x22\x0c\x0c", b"\x22\x10\x02", b"\x10\x01", b"\x22\xf1\x86", b"\x19\x02\xff", b"\x11\x01", b"\x10\x03"]
+            plan = [("pdu", rng.choice(pool)) for _ in range(rng.choice([1, 1, 2, 3, 4]))]
+            if rng.random() < 0.5:
+                plan.append(("pdu", b"\x10\x01"))
+            r = rec("fake://ecu0", "ECU0", table_ecu(0), plan)
+            passes = rng.choice([2, 3])
+            replays.append(((r, passes), [(0, p) for p, _, _ in r["calls"]] * passes, None, f"{passes} passes over a recording of {len(r['calls'])} exchanges"))
+        else:  # pauses
+            bystander()
+            r = rec("fake://ecu0", "ECU0", table_ecu(boot), table_plan(n, boot))
+            replays.append((None, [(rng.choice(sc.GAPS_MS), p) for p, _, _ in r["calls"]], None, "pauses between the requests"))
+        sc.name_runs(dbp, named)
+        runs_txt, rows_txt, per_run = sc.db_for_model(dbp)
+        # the recorder wrote one row per call, in completion order
+        for r in recs:
+            got = [(q, a) for _, q, a in per_run.get(r["run"], [])]
+            want = [(hx(p) if p else "", None if a is None else hx(a)) for p, a, _ in r["calls"]]
+            if got != want:
+                ctx.disagree(f"replay:recorded-rows:{scenario}", f"the rows of run {r['run']} are not the completed calls in completion order: {got[:6]} vs {want[:6]}",
+                             {"scenario": scenario, "calls": want}, impl=got, model=want, spec_violated=False, site="ECU._request / DBHandler")
+            for _, a, _ in r["calls"]:
+                if a is not None:
+                    replies_seen.add(hx(a))
+        sel_name, sel_props = rng.choice([("ECU0", None), (None, {"vin": "VIN0"}), ("ECU0", {"vin": "VIN0", "hw": 7}), ("ECU0", {"absent": None})])
+        for spec_run, reqs, xs, where in replays:
+            real, _ = vrun(sc.replay_trace(dbp, sel_name, sel_props, reqs, xs))
+            spec = None
+            if spec_run is not None:
+                spec_run, n_pass = spec_run if isinstance(spec_run, tuple) else (spec_run, 1)
+                hist = [(p, a) for p, a, _ in spec_run["calls"]]
+                spec = (hist, ["N" if a is None else hx(a) for _, a in hist], n_pass)
+            jobs.append({"scenario": scenario, "line": sc.serve_line(sel_name, sel_props, xs, runs_txt, rows_txt, reqs), "real": real, "spec": spec,
+                         "runs_in_db": len(recs), "where": where})
+            ctx.ev()
+            ctx.kind(f"scenario:{scenario}")
+            ctx.nontrivial((scenario, rows_txt, tuple(reqs), str(xs)))
+    return jobs, replies_seen
+
+
+def _judge_scenarios(ctx, jobs, replies_seen):
+    from gallia.services.uds.core import service
+
+    # every recorded reply: the model's reading (classify, C02's decoder, re-serialisation) against the real parser
+    replies = sorted(replies_seen)
+    unparsable = set()
+    for b, out in zip(replies, ctx.lean([f"kind {b}" for b in replies])):
+        k_cls, k_obj, how, pdu, _ = out.split(" ")
+        raw = bytes.fromhex(b)
+        try:
+            obj = service.UDSResponse.parse_dynamic(raw)
+            real_how, real_pdu = "typed", hx(obj.pdu)
+        except Exception:
+            real_how, real_pdu = "raw", b
+            unparsable.add(b)
+        real_kind = _kind_of_real(raw)
+        ctx.ev()
+        if (k_cls, k_obj, how, pdu) != (real_kind, real_kind, real_how, real_pdu):
+            ctx.disagree(f"replay:parse-recorded:{real_kind.rstrip('0123456789:')}:{real_how}", f"recorded reply {b}: the real parser gives {real_kind}/{real_how}/{real_pdu}, "
+                         f"the model classify={k_cls} object={k_obj} {how} {pdu}", {"reply": b}, impl=[real_kind, real_how, real_pdu], model=[k_cls, k_obj, how, pdu],
+                         spec_violated=False, site="UDSResponse.parse_dynamic / DBUDSServer.respond_after_default")
+    ctx.kind(*["recorded-reply:" + ("unparsable" if b in unparsable else "parses") for b in replies])
+    model_out = ctx.lean([j["line"] for j in jobs])
+    agree_out = ctx.lean(["agree " + ";".join(f"{hx(p) if p else '-'}:{hx(r) if r is not None else 'N'}" for p, r in j["spec"][0]) if j["spec"] and j["spec"][0] else "agree -"
+                          for j in jobs])
+    n_spec = 0
+    for j, mo, la in zip(jobs, model_out, agree_out):
+        real = j["real"]
+        model = mo.split(",") if mo and mo != "bad-op" else []
+        real_r = [t.split("~")[0] for t in real]
+        if j["spec"] is not None and la.split(" ")[0] == "1" and (j["spec"][2] == 1 or " final=1/n " in la):
+            # the presupposition holds; further passes count when the recording ends in the default state (a scan that is started again)
+            hist, recorded, n_pass = j["spec"]
+            n_spec += 1
+            if real_r[: len(recorded) * n_pass] != recorded * n_pass:
+                _report_spec(ctx, hist, j["where"], j["scenario"], j["runs_in_db"], real_r, recorded * n_pass, unparsable, n_pass)
+                continue
+        if mo == "bad-op" or real != model:
+            i = _first_diff(real, model)
+            i = 0 if i is None else i
+            ctx.disagree(f"replay:model-vs-code:{j['scenario']}", f"real server and model differ at request {i} ({j['where']}): reply~state@cursor {real[i] if i < len(real) else '?'} vs "
+                         f"{model[i] if i < len(model) else mo[:80]}", {"scenario": j["scenario"], "where": j["where"], "line": j["line"][:4000], "index": i},
+                         impl=real[: i + 1], model=model[: i + 1], spec_violated=False, site="DBUDSServer.respond_after_default / UDSServer.respond / handle_request")
+    ctx.notes["scenario_replays"] = len(jobs)
+    ctx.notes["scenario_replays_checked_against_the_recording"] = n_spec
+    ctx.traces_validated += len(jobs)
+    if jobs:
+        j = jobs[-1]
+        ctx.sample({"scenario": j["scenario"], "where": j["where"], "replayed (reply~session/level@cursor)": j["real"][:10]})
+
+
 def run(ctx):
     setup_repo_import()
     import gallia.command  # noqa: F401
@@ -347,7 +659,9 @@ def run(ctx):
                 "8..40 exchanges over session changes, seed/key pairs, resets, reads/writes/routines, suppressed and repeated requests "
                 "against RandomUDSServer seeds and against a deterministic table ECU with state-dependent data (unlock then re-enter the active session, "
                 "boot polling where the same request is first unanswered and later answered); the state logged per row is compared with the "
-                "model's client state-tracking rule; distinct = distinct (rows, request sequence); non-trivial = history contains a state change")
+                "model's client state-tracking rule; distinct = distinct (rows, request sequence); non-trivial = history contains a state change; "
+                "scenario databases (harness/lib/c12scen.py): one case = (database with 2-3 recordings of one ECU / refused replies / cancelled calls / OEM state keys / pauses / a short scan sent several times, "
+                "selector, request sequence, server-side state keys), compared reply~state@cursor per request")
     n_db = ctx.pick(70, 400)
     lines_replay, lines_agree, lines_db, meta = [], [], [], []
     with tempfile.TemporaryDirectory(prefix="verif-c12-") as td:
@@ -399,6 +713,7 @@ def run(ctx):
                              "logged": _logged_states(dbp, run_id)})
                 ctx.ev()
                 ctx.kind(f"runs={n_runs}", f"select:{mode}")
+        jobs, replies_seen = _scenarios(ctx, Path(td))
     out_r = ctx.lean(lines_replay)
     out_a = ctx.lean(lines_agree)
     out_d = ctx.lean(lines_db)
@@ -445,10 +760,7 @@ def run(ctx):
         if agree and single:
             n_agree += 1
             if real_s[: len(recorded_s)] != recorded_s:
-                i = next(k for k in range(len(recorded_s)) if real_s[k] != recorded_s[k])
-                what = "exception" if real_s[i] == "EXC" else ("silence" if real_s[i] == "N" else "other-bytes")
-                ctx.disagree(f"replay:differs-from-recording:{what}", f"replayed reply {i} is {real_s[i]} but {recorded_s[i]} was recorded (states agree along the history)",
-                             {**case, "index": i}, impl=real_s, model=recorded_s, spec_violated=True, site="DBUDSServer.respond_after_default")
+                _report_spec(ctx, hist, f"selector {m['mode']}", "one-recording-per-ecu", m["n_runs"], real_s, recorded_s, set())
                 continue
         elif single:
             n_disagree_presup += 1
@@ -459,22 +771,51 @@ def run(ctx):
     ctx.notes["histories_where_presupposition_holds"] = n_agree
     ctx.notes["histories_where_client_and_server_state_tracking_diverge"] = n_disagree_presup
     ctx.traces_validated += len(meta)
+    _judge_scenarios(ctx, jobs, replies_seen)
     if meta:
         m = meta[0]
         ctx.sample({"selector": m["mode"], "runs_in_db": m["n_runs"], "history": [[hx(p), None if r is None else hx(r)] for p, r in m["hist"]][:12],
                     "replayed": ["EXC" if isinstance(r, tuple) else (None if r is None else hx(r)) for r in m["real"]][:12]})
 
 
+def replay(ctx, payload):
+    """re-run one recorded failing input: record the history with the real recorder against a scripted ECU, replay it (`passes` times) through
+    the real DBUDSServer, print what was recorded, what is replayed and what the model says; 1 when the replay differs from the recording"""
+    setup_repo_import()
+    import gallia.command  # noqa: F401
+    patch_aiosqlite()
+    case = payload.get("case") or {}
+    if "history" not in case:
+        print(json.dumps(payload, indent=1)[:6000])
+        print("this replay file names a correspondence that no longer checks; it carries no single history to re-run")
+        return 0
+    hist = [(bytes.fromhex(p), None if r is None else bytes.fromhex(r)) for p, r in case["history"]]
+    n_pass = int(case.get("passes", 1))
+    recorded, real, ok = _rerecord_and_replay(ctx, hist, n_pass, oem="recorder" in case)
+    print("requests :", " ".join(hx(p) for p, _ in hist), f"(x{n_pass})" if n_pass > 1 else "")
+    print("recorded :", " ".join(recorded))
+    print("replayed :", " ".join(real))
+    print("presupposition (client and server agree on the state along the history" + (", recording ends in the default state" if n_pass > 1 else "") + "):", ok)
+    differs = real[: len(recorded)] != recorded
+    print("replay differs from the recording" if differs else "replay equals the recording")
+    return int(differs and ok)
+
+
 MANIFEST = {
-    "level_text": ("Lean 4 theorem replay_faithful: for every recorded history on which client-side and server-side state tracking agree "
-                   "(the property's presupposition, a decidable predicate), replaying the requests against the recorded rows - mixed with "
-                   "arbitrary rows of other ECUs / property sets and with later rows of the same ECU - returns exactly the recorded replies and "
-                   "silence where none was recorded; plus a syntactic sufficient condition for the presupposition and the concrete history on "
-                   "which it fails. The replay model (row selection id > last then wrap, JSON state match, reset on NULL reply) is tied to the code "
-                   "by recording with the real ECU + DBHandler against RandomUDSServer and a state-aware table ECU into real sqlite files (logged client state per row = model's clientStates) and replaying through the real "
-                   "DBUDSServer: model prediction = real replay on every history, real replay = recording whenever the presupposition holds."),
-    "level_note": ("Trusted: Lean kernel, sqlite/aiosqlite, the harness. C01/C02 round trips are assumed for the stored request/response bytes. "
-                   "Earlier runs of the *same* ECU name/properties shadow later ones by design and are outside the theorem."),
-    "technique": "Lean 4 proof (induction over the history with a row-selection invariant) + record/replay correspondence on real sqlite databases",
+    "level_text": ("Lean 4 theorems over an executable model of the whole replay path. Row level (`replayStep`): `replay_faithful` / `replay_faithful_db` - a recorded history on which client- and "
+                   "server-side state tracking agree (the property's presupposition, decidable) is replayed exactly, whatever other ECUs / property sets / later rows the database holds; `replay_cursor_spec` - the "
+                   "cursor rule in general (smallest matching id above the cursor, else smallest matching id); `replay_earliest_recording`, `replay_with_earlier_runs`, `replay_faithful_repeated_runs` - several "
+                   "recordings of the same ECU: the earliest is served first, m passes go round robin through k recordings, identical recordings replay exactly; `replay_again`; `replay_skips_unsent_calls` - rows of calls "
+                   "that were never transmitted. Recording side: `record_is_c11_rows` / `record_is_c11_calls` - the rows C11's recorder model leaves under every schedule / fault / cancellation are `recordDb`. "
+                   "Server level (`serveStep` = handle_request -> respond -> respond_after_default -> update_state over JSON state objects, with request and reply parsed and re-serialised): `serve_is_replay` - it is the "
+                   "row-level model, given C01's and C02's round trips as hypotheses (discharged in `codec_hypotheses_hold`); `update_state_class_is_classify` - the state-tracking classes are read off C02's decoder; "
+                   "`state_match_keywise`; `unparsable_recorded_reply`; `served_bytes_are_recorded`; `server_tables_agree` - DBUDSServer.Behavior, the rule chain, the query tails, the cursor start, the inactivity limit and "
+                   "ECUState's keys regenerated from the working tree. Tie: recording with the real ECU (+ an OEM-like subclass) + DBHandler against RandomUDSServer, a state-aware table ECU and reply-mutating / "
+                   "suppress-ignoring variants into real sqlite files - 1..3 ECUs per file, 2-3 recordings of one ECU, refused replies, calls cancelled in flight or while waiting for the mutex - and replaying through the real "
+                   "DBUDSServer / UDSServerTransport.handle_request with state and cursor read after every request: model = code on every replay, code = recording whenever the presupposition holds (also on further "
+                   "passes of a recording that ends in the default state)."),
+    "level_note": ("Trusted: Lean kernel, sqlite/aiosqlite, the harness. C01 / C02 round trips enter as explicit hypotheses discharged from those properties' lemmas; the recorder is C11's model. The inactivity reset and the wrap-around are "
+                   "modelled and tied, but a change there that no history within the property's statement can show is reported without a failing input."),
+    "technique": "Lean 4 proof (induction over histories / passes with a row-selection invariant; refinement of the server-level model to the row-level model) + regenerated tables + record/replay correspondence on real sqlite databases",
     "design_ref": "DESIGN.md section 7, C12",
 }
